@@ -5,11 +5,11 @@ import (
 	"go/ast"
 	goparser "go/parser"
 	"go/token"
-	"path/filepath"
-	"strconv"
 	"os"
 	"os/exec"
+	"path/filepath"
 	"sort"
+	"strconv"
 	"strings"
 )
 
